@@ -2,7 +2,7 @@
 # tools_seed.sh <PID> <seed-dir-name>: confirm a seeded change made in /tmp/seed_<PID> and run ./check <PID> against it.
 # Usage: tools_seed.sh C02 C02-char-escape-high-bit [check-id ...]
 P=$1; NAME=$2; shift 2; CHECKS=${@:-$P}
-W=/tmp/seed_$P
+W=${SEED_DIR:-/tmp/seed_$P}
 set -u
 cd $W || exit 2
 echo "== demo with change"; timeout 300 /venv/bin/python demo_$P.py > /tmp/seed_demo_with.txt 2>&1; echo "exit=$?"; head -3 /tmp/seed_demo_with.txt
